@@ -34,6 +34,10 @@ pub fn pair_scn(tier: &str, stable: Option<u64>) -> PairScn {
             }
         }
     }
+    // a pool of two token-factory denoms sharing their subdenom (constant product only)
+    if stable.is_none() {
+        roots.push(PairRoot { label: "FF/fees0/preswaps=true".into(), kinds: Kinds::FF, decimals: [6, 6], fees: PFEES[0], first: [10u128.pow(12), 10u128.pow(12)], pre_swaps: true });
+    }
     PairScn { property: "C07".into(), stable_amp: stable, roots, fee_alphabet: vec![PFEES[1], PFEES[2], PFEES[3]], probe: Probe::None, reduced: false }
 }
 
